@@ -187,3 +187,18 @@ def cleanup_case_files():
 
 import atexit
 atexit.register(cleanup_case_files)
+
+
+def single_knob_variant(cfg, rng):
+    """a copy of a stellarator-symmetric input with exactly ONE symmetry-breaking knob switched on (B2s, sigma0, rs or zc)"""
+    c = dict((k, v) for k, v in cfg.items() if k not in ('rs', 'zc', 'sigma0', 'B2s'))
+    nh = len(c['rc'])
+    knobs = ['sigma0', 'rs', 'zc'] + (['B2s', 'B2s'] if c.get('order', 'r1') != 'r1' else [])
+    k = knobs[int(rng.integers(0, len(knobs)))]
+    if k == 'B2s':
+        c['B2s'] = round_sig(rnd(rng, 0.2, 1.0) * (1 if rng.random() < 0.5 else -1))
+    elif k == 'sigma0':
+        c['sigma0'] = round_sig(rnd(rng, 0.1, 0.5))
+    else:
+        c[k] = [0.0] * (nh - 1) + [round_sig(abs(c['rc'][-1]) * rnd(rng, 0.05, 0.2))]
+    return c
